@@ -439,7 +439,8 @@ class FnCompiler:
                     add(self.target_key(node.target))
                 elif isinstance(node, ast.Call) and isinstance(node.func, ast.Attribute) and \
                         node.func.attr in ("append", "update", "pop", "extend"):
-                    add(self.target_key(node.func.value))
+                    base = node.func.value
+                    add(self.target_key(base.value if isinstance(base, ast.Subscript) else base))
                 elif isinstance(node, (ast.For,)):
                     for x in ast.walk(node.target):
                         if isinstance(x, ast.Name):
@@ -460,7 +461,7 @@ class FnCompiler:
 
     def annotation_type(self, ann):
         txt = ast.unparse(ann)
-        table = {"Dict[int, int]": D(Z, Z), "List[int]": L(Z), "List": L(O), "Dict": D(S, O)}
+        table = {"Dict[int, int]": D(Z, Z), "List[int]": L(Z), "List": L(O), "Dict": D(S, O), "List[List[int]]": L(L(Z))}
         if txt not in table:
             raise Fail("annotation %s" % txt)
         return table[txt]
@@ -551,6 +552,18 @@ class FnCompiler:
             return self.bind_stmt(var, code, pure, cont(env))
         if isinstance(s, ast.Expr) and isinstance(s.value, ast.Call):
             c = s.value
+            if isinstance(c.func, ast.Attribute) and c.func.attr == "append" and len(c.args) == 1 and isinstance(c.func.value, ast.Subscript):
+                # X[i].append(v)  ==  X[i] = X[i] + [v]
+                key = self.target_key(c.func.value.value)
+                var = self.key_var(key)
+                tc = env.get(key) or _fail("unknown %s" % key)
+                ci, ti, pi = self.expr(c.func.value.slice, env)
+                cv, tv, pv = self.expr(c.args[0], env)
+                if not (tc[0] == "list" and isinstance(tc[1], tuple) and tc[1] == L(tv) and ti == Z):
+                    raise Fail("%s[...].append(%r) on %r (line %d)" % (key, tv, tc, s.lineno))
+                code, _ = self.combine([(ci, pi), (cv, pv)],
+                                       lambda a, b: "(row_ <- list_get %s %s ;; list_set %s %s (row_ ++ [%s]))" % (var, a, var, a, b), result_pure=False)
+                return self.bind_stmt(var, code, False, cont(env))
             if isinstance(c.func, ast.Attribute) and c.func.attr in ("append", "update", "extend") and len(c.args) == 1:
                 key = self.target_key(c.func.value)
                 var = self.key_var(key)
@@ -654,6 +667,29 @@ class FnCompiler:
             if len(allvars) <= 1:
                 return "%s <- %s ;;\n%s" % (allvars[0] if allvars else "_", code, after)
             return "%s <- %s ;;\n%s" % (tuple_pat(allvars), code, after)
+        if isinstance(s, ast.Try):
+            # try: j = l.index(v); <stmts> except ValueError: pass      (the search either finds the element or falls through)
+            ok = (len(s.handlers) == 1 and isinstance(s.handlers[0].type, ast.Name) and s.handlers[0].type.id == "ValueError"
+                  and all(isinstance(x, ast.Pass) for x in s.handlers[0].body) and not s.orelse and not s.finalbody and s.body
+                  and isinstance(s.body[0], ast.Assign) and len(s.body[0].targets) == 1 and isinstance(s.body[0].targets[0], ast.Name)
+                  and isinstance(s.body[0].value, ast.Call) and isinstance(s.body[0].value.func, ast.Attribute)
+                  and s.body[0].value.func.attr == "index" and len(s.body[0].value.args) == 1)
+            if not ok:
+                raise Fail("try statement of an unsupported shape (line %d)" % s.lineno)
+            jname = s.body[0].targets[0].id
+            cl, tl, pl = self.expr(s.body[0].value.func.value, env)
+            cv, tv, pv = self.expr(s.body[0].value.args[0], env)
+            if tl != L(Z) or tv != Z:
+                raise Fail("list.index on %r (line %d)" % (tl, s.lineno))
+            # nothing else in the try body may raise ValueError in the model (only Raise "IndexError"/"KeyError" exist there)
+            env_found = dict(env)
+            self.set_var(jname, Z, env_found)
+            found = self.block(s.body[1:] + rest, env_found, k, in_loop)
+            missing = self.block(rest, dict(env), k, in_loop)
+            code, _ = self.combine([(cl, pl), (cv, pv)],
+                                   lambda a, b: "match list_index %s %s with\n| Some %s => (\n%s\n)\n| None => (\n%s\n)\nend" % (a, b, vname(jname), found, missing),
+                                   result_pure=False)
+            return code
         if isinstance(s, ast.Continue):
             if in_loop is None:
                 raise Fail("continue outside a loop")
@@ -772,16 +808,16 @@ class FnCompiler:
         is_method = bool(pnames) and pnames[0] == "self"
         if is_method:
             pnames = pnames[1:]
-        if a.vararg:
+        if a.vararg and not spec.get("fragment"):
             if not spec.get("vararg"):
                 raise Fail("%s: *args not declared" % spec["qual"])
             pnames.append(a.vararg.arg)
-        if pnames != [n for n, _ in spec["params"]]:
+        if not spec.get("fragment") and pnames != [n for n, _ in spec["params"]]:
             raise Fail("%s: parameters are %r, expected %r" % (spec["qual"], pnames, [n for n, _ in spec["params"]]))
         ndefaults = len(a.defaults)
         env = {n: t for n, t in spec["params"]}
         binders = []
-        if is_method and not self.is_init:
+        if is_method and not self.is_init and not spec.get("fragment"):
             cls = spec["qual"].split(".")[0]
             for kk, t in (spec.get("fields") or self.unit.fields[cls]):
                 env[kk] = t
@@ -792,7 +828,33 @@ class FnCompiler:
             if self.is_init or spec.get("mutates"):
                 return self.finish(None, env2)
             raise Fail("%s: control reaches the end without return" % spec["qual"])
-        body = self.block(fdef.body, env, end)
+        stmts = fdef.body
+        frag = spec.get("fragment")
+        if frag:
+            # a slice of the function body (the rest - caches keyed by the method name, the final call of the abstract setter -
+            # is outside the first-order fragment): from the statement `from` up to, not including, the statement `until`;
+            # the fragment's result is the tuple of the variables `outputs`
+            texts = [ast.unparse(x).split("\n")[0] for x in stmts]
+            try:
+                i0 = texts.index(frag["from"])
+                i1 = texts.index(frag["until"])
+            except ValueError:
+                raise Fail("%s: fragment boundaries not found (%r .. %r)" % (spec["qual"], frag["from"], frag["until"]))
+            if not i0 < i1:
+                raise Fail("%s: empty fragment" % spec["qual"])
+            stmts = [x for x in stmts[i0:i1] if ast.unparse(x).split("\n")[0] not in spec.get("skip", [])]
+            env = {n: t for n, t in frag["inputs"]}
+            binders = ["(%s : %s)" % (vname(n), coq_type(t)) for n, t in frag["inputs"]]
+
+            def end(env2):                                   # noqa: F811
+                outs = frag["outputs"]
+                for o in outs:
+                    if o not in env2:
+                        raise Fail("%s: fragment output %s undefined" % (spec["qual"], o))
+                ty = T(*[env2[o] for o in outs]) if len(outs) > 1 else env2[outs[0]]
+                self.note_ret(ty)
+                return "Ok %s" % tuple_val([vname(o) for o in outs])
+        body = self.block(stmts, env, end)
         if self.is_init:
             self.unit.fields[spec["qual"].split(".")[0]] = list(self.self_fields)
         src = ast.get_source_segment(self.unit.src, fdef) or ""
@@ -876,6 +938,18 @@ UNITS = {
              calls={"self._uniq.map_unique_objs": ("uniquifier_map_unique_objs", "self._uniq", [L(O)], L(O))}),
     ], "From XV Require Import Gen.PyUnique.\n"),
 }
+UNITS["PyEditable"] = ("xitorch/_core/editable_module.py", [
+    # the search loop of _get_unique_params_idxs (between the cache look-up and the cache update)
+    dict(qual="EditableModule._get_unique_params_idxs", coq="editable_unique_params_idxs", params=[],
+         fragment={"from": "ids = []", "until": "self._number_of_params[methodname] = len(allparams)",
+                   "inputs": [("allparams", L(O))], "outputs": ["idxs", "idx_map"]},
+         locals={"ids": L(Z), "idxs": L(Z), "idx_map": L(L(Z))}),
+    # the scatter of setuniqueparams (between the cache reads and the final setparams(methodname, *allparams))
+    dict(qual="EditableModule.setuniqueparams", coq="editable_setuniqueparams_scatter", params=[],
+         fragment={"from": "allparams = [None for _ in range(nparams)]", "until": "return self.setparams(methodname, *allparams)",
+                   "inputs": [("nparams", Z), ("maps", L(L(Z))), ("uniqueparams", L(O))], "outputs": ["allparams"]},
+         skip=["maps = self._unique_params_maps[methodname]"]),
+])
 TU = T(Z, L(O), L(Z), L(Z), Z, B)          # the fields of a Uniquifier, in the order of Gen/PyUnique.v
 PF_FIELDS = [("self._state_change_allowed", B), ("self._store", L(O)), ("self._uniq", TU), ("self._cur_objparams", L(O)),
              ("self._restore_stack", L(T(L(O), B)))]
@@ -903,6 +977,7 @@ RELEVANT = {
     "PyUnique": ["C09", "C10"],
     "PyPackerIdx": ["C20"],
     "PyPureFn": ["C09", "C10"],
+    "PyEditable": ["C09", "C10"],
 }
 LAST_INFO = {}
 
